@@ -631,6 +631,8 @@ def run_bulk(case):
 def run(case):
     if case.get('sub') == 'bulk':
         return run_bulk(case)
+    if case.get('sub') == 'fresh':
+        return run_fresh(case)
     out = Outcome()
     if _RUNAWAY[0]:
         return out.fail('hang', 'a thread of an earlier schedule never finished in this process; no further schedules are run here')
@@ -700,7 +702,75 @@ def strat_bulk(tier):
     return st.composite(_bulk_case)()
 
 
+# ---------------------------------------------------------------------------
+# sub-check "fresh": process history.  The cache is built in a brand-new interpreter straight after `import boltons.cacheutils`
+# (before the program itself has imported threading, the way a module-level `_cache = LRU(...)` is), threads come later.
+# Black-box and free of timing assumptions about a correct cache: thread A's lookup misses and its on_miss reads another key
+# twice, with a pause in between during which thread B tries to assign that key.  An atomic lookup makes B wait, A sees
+# (1, 1); (1, 2) cannot be produced by any sequential order.  If B is slow the probe sees (1, 1) as well - no false alarm.
+
+FRESH_SCRIPT = r'''
+import sys, json
+sys.path.insert(0, sys.argv[1])
+from boltons.cacheutils import LRI, LRU
+cls = {'LRI': LRI, 'LRU': LRU}[sys.argv[2]]
+state = {}
+def on_miss(key):
+    c = state['cache']
+    v1 = c.get('base')
+    state['e1'].set()
+    state['e2'].wait(0.4)
+    v2 = c.get('base')
+    return (v1, v2)
+cache = cls(max_size=8, on_miss=on_miss)          # built before this program imports threading
+cache['base'] = 1
+state['cache'] = cache
+import threading
+state['e1'], state['e2'] = threading.Event(), threading.Event()
+res = {}
+def a():
+    res['a'] = cache['total']
+def b():
+    state['e1'].wait(5)
+    cache['base'] = 2
+    state['e2'].set()
+ta, tb = threading.Thread(target=a), threading.Thread(target=b)
+ta.start(); tb.start(); ta.join(10); tb.join(10)
+print(json.dumps({'a': res.get('a'), 'base': cache.get('base'), 'alive': ta.is_alive() or tb.is_alive()}))
+'''
+
+
+def strat_fresh(tier):
+    return st.fixed_dictionaries({'sub': st.just('fresh'), 'cls': st.sampled_from(['LRI', 'LRU'])})
+
+
+def run_fresh(case):
+    import json
+    import subprocess
+    from vlib import core
+    out = Outcome()
+    env = dict(os.environ, PYTHONDONTWRITEBYTECODE='1')
+    try:
+        cp = subprocess.run([sys.executable, '-B', '-c', FRESH_SCRIPT, core.REPO, case['cls']], capture_output=True, text=True, timeout=60, env=env)
+    except subprocess.TimeoutExpired:
+        return out.fail('c03.deadlock', 'fresh-interpreter probe with %s did not finish within 60 s' % case['cls'])
+    if cp.returncode != 0:
+        raise HarnessError('fresh-interpreter probe failed: %s' % (cp.stderr[-600:],))
+    r = json.loads(cp.stdout.strip().splitlines()[-1])
+    out.nontrivial = True
+    out.units = 1
+    out.label('cache_built_before_threads_exist')
+    if r['alive']:
+        return out.fail('c03.deadlock', '%s built in a fresh interpreter: the two threads did not finish (%r)' % (case['cls'], r))
+    if r['a'] != [1, 1] or r['base'] != 2:
+        return out.fail('c03.not-linearizable', '%s(max_size=8, on_miss=f) built straight after `import boltons.cacheutils` in a fresh interpreter, threads started later: '
+                        "thread A: cache['total'] (miss; f reads cache.get('base') twice), thread B meanwhile: cache['base'] = 2.  A got %r and base ended as %r; "
+                        'atomic operations allow only (1, 1) for A (B waits for the lookup to finish) and base == 2' % (case['cls'], tuple(r['a'] or ()), r['base']))
+    return out
+
+
 SUBS = {
     'sched': Sub('sched', strat, run, quick=256, thorough=9600, quick_shards=16),
     'bulk': Sub('bulk', strat_bulk, run_bulk, quick=160, thorough=4800, quick_shards=16),
+    'fresh': Sub('fresh', strat_fresh, run_fresh, quick=4, thorough=16, quick_shards=2),
 }
